@@ -92,7 +92,7 @@ def run(res, tier, seed):
     rng = random.Random(seed * 1000003 + 1)
     res.rule = RULE
     n_models = 400 if tier == "quick" else 5000
-    models = [(a, build(a)) for a in CORPUS] + gen_valid(rng, n_models, res, depth_max=4, want=lambda m: plain(m))
+    models = [(a, build(a)) for a in CORPUS] + gen_valid(rng, n_models, res, depth_max=4, want=lambda m: plain(m), wide=0.03)
     res.count("corpus_cases", len(CORPUS))
     cases = []
     for ast, m in models:
@@ -188,6 +188,28 @@ def run(res, tier, seed):
         bad = oracle_model(res, ast, m, rng, 0, 4096)
         if bad:
             res.violation("oracle", f"{bad['problem']} on {m!r} at {bad['env']} (accepted by errors(); the id B has two definitions differing in {how})", bad)
+    # unnamed compounds over DIFFERENT leaves whose generated ids coincide (the id digest joins the child ids without a separator:
+    # "ab","c" and "a","bc"; trailing digits against the threshold): one id, two definitions - rejected, or judged as a validated model
+    for _ in range(40 if tier == "quick" else 400):
+        (l1, l2) = rng.choice([(["ab", "c"], ["a", "bc"]), (["a", "bc"], ["abc"]), (["x1", "y"], ["x", "1y"]), (["ab", "cd"], ["a", "bcd"]), (["p", "qr", "s"], ["pq", "rs"])])
+        v = rng.choice([1, 1, 2, 0])
+        kind = rng.choice(["AtLeast", "AtLeast", "Any", "All"])
+        mk = lambda ls: {"k": kind, "v": v, "s": None, "ch": [{"k": "str", "id": x} for x in ls], "id": None}
+        ast = {"k": rng.choice(["All", "Any"]), "id": rng.choice(["T", None]),
+               "ch": [{"k": "Any", "ch": [mk(l1), {"k": "str", "id": "u"}], "id": "P"}, {"k": rng.choice(["Any", "All"]), "ch": [mk(l2), {"k": "str", "id": "w"}], "id": "Q"}]}
+        try:
+            m = build(ast)
+            if m.errors():
+                res.count("generated_id_collision_rejected_by_validation"); continue
+        except Exception as e:
+            res.count("generated_id_collision_error:" + type(e).__name__); continue
+        ids = [x.id for x in all_nodes(m) if not is_var(x)]
+        if len(set(ids)) == len(ids):
+            res.count("generated_ids_did_not_collide"); continue
+        res.count("generated_id_collision_accepted_by_validation")
+        bad = oracle_model(res, ast, m, rng, 0, 4096)
+        if bad:
+            res.violation("oracle", f"{bad['problem']} on {m!r} at {bad['env']} (accepted by errors(); two unnamed sub-propositions over different leaves share one generated id)", bad)
     n, failing, errs = run_case_shards("C01", "encode", "", "bool * prop * list (ident * (Z * Z)) * list (list Z)", "check_encode", cases)
     res.corr_cases += n; res.evaluations += n
     for e in errs:
